@@ -1519,7 +1519,7 @@ isal_deflate(struct isal_zstream *stream)
         struct isal_zstate *state = &stream->internal_state;
         int ret = COMP_OK;
         uint8_t *next_in, *start_in, *buf_start_in, *next_in_pre;
-        uint32_t avail_in, total_start, hist_size, future_size;
+        uint32_t avail_in, total_start, total_out_start, hist_size, future_size;
         uint32_t in_size, in_size_initial, out_size, out_size_initial;
         uint32_t processed, buffered_size = state->b_bytes_valid - state->b_bytes_processed;
         uint32_t flush_type = stream->flush;
@@ -1539,6 +1539,7 @@ isal_deflate(struct isal_zstream *stream)
 
         start_in = stream->next_in;
         total_start = stream->total_in;
+        total_out_start = stream->total_out;
 
         hist_size = get_hist_size(stream, start_in, buf_hist_start);
 
@@ -1705,6 +1706,16 @@ isal_deflate(struct isal_zstream *stream)
                 stream->total_in += future_size;
                 stream->avail_in -= future_size;
         }
+
+        /* A flush left unfinished by a full output buffer has been completed by
+         * this call before the input supplied with it was compressed, that input
+         * is only buffered so far. Compress it now, otherwise avail_out != 0 and
+         * state ZSTATE_NEW_HDR would tell the caller that it has been flushed. */
+        if (state->state == ZSTATE_NEW_HDR && stream->avail_out > 0 &&
+            stream->total_out != total_out_start &&
+            state->b_bytes_valid > state->b_bytes_processed &&
+            (stream->flush != NO_FLUSH || stream->end_of_stream))
+                return isal_deflate(stream);
 
         return ret;
 }
